@@ -34,6 +34,11 @@ func c03Scenarios(cfg runCfg) []Scenario {
 		out = append(out, Scenario{Family: "prng", Seed: mix(cfg.seed, 3, uint64(i)), N: 100})
 	}
 	out = append(out, Scenario{Family: "make-scopes", Seed: mix(cfg.seed, 3, 77, uint64(cfg.shard))})
+	for i := 0; i < cfg.n(16, 10); i++ {
+		if cfg.mine(i) {
+			out = append(out, Scenario{Family: "unsat", Seed: mix(cfg.seed, 3, 78, uint64(i)), N: 100})
+		}
+	}
 	return out
 }
 
@@ -111,7 +116,84 @@ func countCtors(res *Result, desc string) {
 	}
 }
 
+// c03Unsat: generators whose contract no bitstream can meet; every draw has to end as invalid data.
+func c03Unsat(r *rng) (string, *rapid.Generator[any]) {
+	switch r.intn(9) {
+	case 0:
+		return "StringMatching(no-match class)", rapid.StringMatching(`[^\x00-\x{10FFFF}]`).AsAny()
+	case 1:
+		return "StringMatching(a\\bb)", rapid.StringMatching(`a\bb`).AsAny()
+	case 2:
+		return "SliceOfBytesMatching(x[^\\x00-\\x{10FFFF}]+)", rapid.SliceOfBytesMatching(`x[^\x00-\x{10FFFF}]+`).AsAny()
+	case 3:
+		return "SliceOfNDistinct(Bool,3,3)", rapid.SliceOfNDistinct(rapid.Bool(), 3, 3, rapid.ID[bool]).AsAny()
+	case 4:
+		return "MapOfN(IntRange(0,1),Int,3,-1)", rapid.MapOfN(rapid.IntRange(0, 1), rapid.Int(), 3, -1).AsAny()
+	case 5:
+		return "Int.Filter(false)", rapid.Int().Filter(func(int) bool { return false }).AsAny()
+	case 6:
+		return "MapOfNValues(Int8,5,5,sign)", rapid.MapOfNValues(rapid.Int8(), 5, 5, func(v int8) bool { return v < 0 }).AsAny()
+	case 7:
+		return "SliceOfN(Int.Filter(false),1,-1)", rapid.SliceOfN(rapid.Int().Filter(func(int) bool { return false }), 1, -1).AsAny()
+	default:
+		return "Custom(always Skip)", rapid.Custom(func(t *rapid.T) int { t.Skip("never"); return 0 }).AsAny()
+	}
+}
+
+func c03RunUnsat(t *testing.T, sc Scenario, res *Result) {
+	r := newRng(sc.Seed, 0x0503)
+	desc, g := c03Unsat(r)
+	var got []string
+	drawBefore := r.chance(1, 2)
+	prop := func(rt *rapid.T) {
+		if drawBefore {
+			rapid.Uint8().Draw(rt, "before")
+		}
+		v := g.Draw(rt, "v")
+		got = append(got, clip(canon(v), 100))
+	}
+	fz := rapid.MakeFuzz(prop)
+	fr := newRng(sc.Seed, 78)
+	for i := 0; i < sc.N; i++ {
+		in := hostileBytes(fr, 120)
+		got = got[:0]
+		var st *testing.T
+		t.Run("f", func(s *testing.T) {
+			st = s
+			fz(s, in)
+		})
+		res.inc("unsat_cases")
+		res.inc("ctor:unsat:" + desc)
+		res.nontrivial(desc + "\x00" + wordsStr(bytesToWords(in)))
+		switch {
+		case len(got) > 0:
+			res.violate(sc, "c03/unsat/"+desc, fmt.Sprintf("%s cannot be satisfied by any bitstream but returned %s", desc, got[0]), map[string]any{"expr": desc, "input_words": wordsStr(bytesToWords(in))})
+		case st.Failed():
+			out := rapid.VerifReplay(bytesToWords(in), prop)
+			res.violate(sc, "c03/unsat-fail/"+desc, fmt.Sprintf("%s: the draw was not rejected as invalid data but failed the test: %s: %s", desc, out.Kind, clip(out.Msg, 300)), map[string]any{"expr": desc, "input_words": wordsStr(bytesToWords(in))})
+		case st.Skipped():
+			res.inc("unsat_rejected_as_invalid")
+		default:
+			res.violate(sc, "c03/unsat-pass/"+desc, desc+": the test case passed although its draw can never succeed", map[string]any{"expr": desc, "input_words": wordsStr(bytesToWords(in))})
+		}
+	}
+	// through Check: nothing but invalid cases
+	setFlags(map[string]string{"rapid.seed": fmt.Sprint(sc.Seed | 1), "rapid.checks": "20", "rapid.nofailfile": "true"})
+	tb := newTB("C03u")
+	got = got[:0]
+	runCheck(tb, prop)
+	errs := tb.errors()
+	if len(got) > 0 || tb.escaped != nil || len(errs) != 1 || !strings.Contains(errs[0], "only generated 0 valid tests") {
+		res.violate(sc, "c03/unsat-check/"+desc, fmt.Sprintf("%s under Check: values %v, escaped %v, errors %v (expected only 'only generated 0 valid tests')", desc, got, tb.escaped, errs), map[string]any{"expr": desc})
+	}
+	res.inc("unsat_checks")
+}
+
 func c03Run(t *testing.T, sc Scenario, res *Result) {
+	if sc.Family == "unsat" {
+		c03RunUnsat(t, sc, res)
+		return
+	}
 	if sc.Family == "make-scopes" {
 		// same-named types from different scopes, used one after the other in one process
 		for i, gx := range []*GX{mkLocalA(), mkLocalB(), mkLocalA()} {
